@@ -19,6 +19,9 @@ def corpus(rnd):
         for n in (1, 2, 5):
             out.append((request(0, 1, ws16, 0xFFFF, 0x100, n, [rnd.randint(0, 255) for _ in range(n * ws)]), ws16))
         out.append((frame(T_RRESP, opts_for(0, ws16, True), 0, 7, 0x20, 2, [rnd.randint(0, 255) for _ in range(2 * ws)]), ws16))
+        # payloads whose checksum is 0x0000 (all-zero data): the checksum field then equals the "no payload" value
+        out.append((request(0, 1, ws16, 0x0102, 0x300, 3, [0] * (3 * ws)), ws16))
+        out.append((frame(T_RRESP, opts_for(0, ws16, True), 0, 8, 0x20, 1, [0] * ws), ws16))
     out.append((frame(T_WRESP, opts_for(0, 0, False), 0, 7, 0x20, 0, []), 0))
     out.append((frame(T_WRESP, opts_for(0, 0, True), 7, 9, 0x20, 4, [0, 0, 0, 0x21]), 0))
     out.append((frame(T_META, opts_for(0, 0, False), 1, 0, 0, 0, []), 0))
